@@ -44,6 +44,7 @@ def check(model: Model, rep: Report, tier: str):
     share_rule(rep, model, y6, "C09.P5", "descriptions derived from a Surface-17 layout keep exactly the involved gates, recompute parking, map identifiers bijectively and carry the requested "
                "refocusing option (= C17.Y6): 'with and without qubit refocusing' is honoured for every contiguous sub-chain")
     p5(model, rep)
+    p6(model, rep)
 
 
 def qec_paths(model: Model):
@@ -387,3 +388,77 @@ def p5(model: Model, rep: Report):
             rep.check(ok, "C09.P5", "qec_round_with_dynamical_decoupling[echo when refocusing]", b.loc, found=seq, required=["Wait", "Rx180", "Wait"], what="data qubits are not flipped once per refocusing round", detail="echo")
         elif subst(p.cond, {flag: FALSE}) == TRUE:
             rep.check(not echo, "C09.P5", "qec_round_with_dynamical_decoupling[no echo without refocusing]", b.loc, found=[e.cls for e in echo], required="no refocusing flips", what="data qubits are flipped although refocusing is switched off", detail="no-echo")
+
+
+# ---------------------------------------------------------------------------------------------
+def p6(model: Model, rep: Report):
+    rep.rule("C09.P6", "what the round builders are told about a layer: get_gate_sequence_indices(i) == [(index(e.q0), index(e.q1)) for every edge e of layer i]; "
+                       "get_park_sequence_indices(i) == [index(p.identifier) for every park p of layer i whose qubit is part of the code]; get_active_ancilla_indices(i) == "
+                       "[index(q) for every edge of layer i for q in its qubits if q is a rotation ancilla]; None exactly when i is outside 0 <= i < number of layers")
+    from ..listflow import as_single_comp
+    from ..extreme import fuse_comprehensions
+    from ..sym import equivalent, t_and
+    C = model.cls("IRepetitionCodeDescription")
+    for name in ("get_gate_sequence_indices", "get_park_sequence_indices", "get_active_ancilla_indices"):
+        f = C.resolve(name)
+        ev = Evaluator(model, inline_methods=False)
+        ps = [p for p in PathEnumerator(ev).function_paths(f, self_cls=C) if p.exit == "return"]
+        s = sym(f.self_name)
+        i = sym([n for n in f.param_names if n != f.self_name][0])
+        seqs = ("attr", s, "gate_sequences")
+        inrange = t_and(t_cmp(">=", i, ZERO), t_cmp(">", t_add(("call", "len", (seqs,), ()), i, -1), ZERO))
+        layer = ("sub", seqs, i)
+        construct = f"IRepetitionCodeDescription.{name}"
+        nones = [p for p in ps if p.value == NONE]
+        rest = [p for p in ps if p.value != NONE]
+        ok_rng = len(nones) == 1 and len(rest) == 1 and equivalent(nones[0].cond, t_not(inrange), ev.enum_members) is None and equivalent(rest[0].cond, inrange, ev.enum_members) is None
+        rep.check(ok_rng, "C09.P6", construct + "[range]", f.loc, found=[f"{show(p.value)[:30]} if {show(p.cond)[:100]}" for p in ps], required="None iff not (0 <= i < len(gate_sequences))",
+                  what="a layer index is answered for a layer that does not exist, or an existing layer (e.g. the last one) is reported as missing", detail=f"range:{name}")
+        if len(rest) != 1:
+            continue
+        p = rest[0]
+        comp = devar(fuse_comprehensions(as_single_comp(p, p.value)))
+        bad = []
+        mapped = lambda t: t[0] == "call" and t[1] == ("attr", s, "map_qubit_id_to_circuit_index") and len(list(t[2]) + list(t[3])) == 1
+
+        def arg(t):
+            return (list(t[2]) + [x for _, x in t[3]])[0]
+
+        def is_edges(dom):
+            d = devar(dom)
+            if d[0] == "call" and d[1] == ("fn", "array_manipulation.unique_in_order"):
+                d = devar((list(d[2]) + [x for _, x in d[3]])[0])
+            return d[0] == "comp" and len(d[3]) == 1 and not d[3][0][1] and d[3][0][0] in (("attr", layer, "_gate_operations"), ("attr", layer, "gate_operations")) \
+                and d[2] == ("attr", subterms(d[2], lambda y: y[0] == "bound")[0], "identifier") if subterms(d[2], lambda y: y[0] == "bound") else False
+        if comp[0] != "comp":
+            raise AnalysisError(f"{construct}: the result is not read as a listing ({show(p.value)[:100]})")
+        gens = comp[3]
+        if name == "get_gate_sequence_indices":
+            ok = len(gens) == 1 and not gens[0][1] and is_edges(gens[0][0]) and comp[2][0] == "tuple" and len(comp[2][1]) == 2 and all(mapped(x) for x in comp[2][1])
+            if ok:
+                b = [y for y in subterms(comp[2], lambda y: y[0] == "bound")]
+                ok = len(b) == 1 and [arg(x) for x in comp[2][1]] == [("sub", ("attr", b[0], "qubit_ids"), ZERO), ("sub", ("attr", b[0], "qubit_ids"), ONE)]
+            if not ok:
+                bad.append(f"pairs are {show(comp)[:160]}")
+        elif name == "get_park_sequence_indices":
+            ok = len(gens) == 1 and gens[0][0] in (("attr", layer, "_park_operations"), ("attr", layer, "park_operations")) and mapped(comp[2])
+            if ok:
+                b = subterms(comp[2], lambda y: y[0] == "bound")
+                ident = ("attr", b[0], "identifier") if len(b) == 1 else None
+                ok = ident is not None and arg(comp[2]) == ident and list(gens[0][1]) in ([("in", ident, ("attr", s, "qubit_ids"))], [])
+            if not ok:
+                bad.append(f"parks are {show(comp)[:160]}")
+        else:
+            ok = len(gens) == 2 and not gens[0][1] and is_edges(gens[0][0]) and mapped(comp[2])
+            if ok:
+                qb = arg(comp[2])
+                b0 = [y for y in subterms(gens[1][0], lambda y: y[0] == "bound")]
+                ok = qb[0] == "bound" and len(b0) == 1 and gens[1][0] == ("attr", b0[0], "qubit_ids") and len(gens[1][1]) == 1
+                if ok:
+                    cnd = gens[1][1][0]
+                    anc = ev.attr(s, "rotation_ancilla_qubit_ids", Frame(f, f.module, {}, C, 0))
+                    ok = cnd[0] == "in" and cnd[1] == qb and _strip_lines(devar(cnd[2])) == _strip_lines(devar(anc))
+            if not ok:
+                bad.append(f"active ancillas are {show(comp)[:200]}")
+        rep.check(not bad, "C09.P6", construct, f.loc, found="; ".join(bad) or "as specified", required="every edge / park / ancilla of the layer, mapped to circuit indices, nothing else",
+                  what="the round builder is told the wrong qubits for a layer (gates, parks or basis rotations land on other qubits, or are dropped): " + "; ".join(bad), detail=f"layer-info:{name}")
